@@ -6,6 +6,7 @@ package main
 
 import (
 	"bufio"
+	"context"
 	"encoding/json"
 	"flag"
 	"fmt"
@@ -237,16 +238,26 @@ func runCheck(id, tier string, seed int, writeEvidence bool) (int, []violation) 
 	rcache := map[string]rres{}
 	for i := range real {
 		v := &real[i]
+		// every indexed replay test whose pattern matches is tried (in index order) until one fails on the real
+		// code; at most maxReplayRuns distinct tests are executed per check run
 		for _, re := range replays {
 			if ok, _ := regexp.MatchString(re.Pattern, v.Obligation); ok {
-				r, done := rcache[re.Run]
+				key := re.File + "/" + re.Run
+				r, done := rcache[key]
 				if !done {
+					if len(rcache) >= maxReplayRuns {
+						continue
+					}
 					out, failed, cmd := runReplay(re)
 					r = rres{out, cmd, failed}
-					rcache[re.Run] = r
+					rcache[key] = r
 				}
-				v.ReplayCmd, v.ReplayOut, v.Replayed = r.cmd, r.out, r.failed
-				break
+				if v.ReplayCmd == "" || r.failed {
+					v.ReplayCmd, v.ReplayOut, v.Replayed = r.cmd, r.out, r.failed
+				}
+				if r.failed {
+					break
+				}
 			}
 		}
 		rf := filepath.Join(outDir, sanitize(v.Obligation)+".json")
@@ -275,6 +286,8 @@ func runCheck(id, tier string, seed int, writeEvidence bool) (int, []violation) 
 	return 0, nil
 }
 
+const maxReplayRuns = 8
+
 func loadReplayIndex() []replayEntry {
 	var out []replayEntry
 	if b, err := os.ReadFile(filepath.Join(verifDir, "replay", "index.json")); err == nil {
@@ -296,7 +309,7 @@ func runReplay(re replayEntry) (string, bool, string) {
 	args := []string{"test", "-tags", "verif", "-overlay", ovf, "-vet=off", "-count=1", "-timeout", "120s", "-run", "^" + re.Run + "$", "."}
 	cmd := exec.Command("go", args...)
 	cmd.Dir = pkgDir
-	cmd.Env = append(os.Environ(), "GOFLAGS=-mod=mod", "GOPROXY=off", "GOSUMDB=off", "GOTOOLCHAIN=local", "GOCACHE="+filepath.Join(tmp, "gocache"))
+	cmd.Env = append(os.Environ(), "GOFLAGS=-mod=mod", "GOPROXY=off", "GOSUMDB=off", "GOTOOLCHAIN=local", "GOCACHE="+filepath.Join(verifDir, "work", "gocache"))
 	out, err := cmd.CombinedOutput()
 	s := string(out)
 	if len(s) > 6000 {
@@ -486,4 +499,61 @@ func retryUndecided(rr *runResult, name string, timeoutS, seed int) bool {
 		a.Bad = nil
 	}
 	return true
+}
+
+// cmdReplay re-runs a recorded violation: the SMT query of the failed obligation (all three solvers) and every
+// replay test indexed for the obligation, against /repo's current tree. Exit 1 if the violation reproduces
+// (a solver answers sat or a replay test fails), 0 otherwise.
+func cmdReplay(args []string) int {
+	if len(args) != 1 {
+		fmt.Println("usage: govc replay <replay-file.json>")
+		return 2
+	}
+	b, err := os.ReadFile(args[0])
+	if err != nil {
+		fmt.Fprintln(os.Stderr, err)
+		return 2
+	}
+	var rec struct {
+		Property  string    `json:"property"`
+		Violation violation `json:"violation"`
+	}
+	if err := json.Unmarshal(b, &rec); err != nil {
+		fmt.Fprintln(os.Stderr, err)
+		return 2
+	}
+	v := rec.Violation
+	fmt.Printf("property=%s obligation=%s reason=%s\n%s\n", rec.Property, v.Obligation, v.Reason, v.Detail)
+	repro := false
+	if v.SMTFile != "" {
+		if _, err := os.Stat(v.SMTFile); err == nil {
+			for _, sc := range solvers(30, 1) {
+				ctx, cancel := context.WithTimeout(context.Background(), 15*time.Minute)
+				r := runSolver(ctx, sc, v.SMTFile)
+				cancel()
+				fmt.Printf("solver %-7s %s (%d ms cpu) on %s\n", sc.Name, r.res, r.ms, v.SMTFile)
+				if r.res == "sat" {
+					repro = true
+				}
+			}
+		}
+	}
+	n := 0
+	for _, re := range loadReplayIndex() {
+		if ok, _ := regexp.MatchString(re.Pattern, v.Obligation); ok && n < maxReplayRuns {
+			n++
+			out, failed, cmd := runReplay(re)
+			fmt.Printf("replay test %s (%s): failed=%v\n  %s\n%s\n", re.Run, re.What, failed, cmd, out)
+			if failed {
+				repro = true
+				break
+			}
+		}
+	}
+	if repro {
+		fmt.Println("REPRODUCED")
+		return 1
+	}
+	fmt.Println("not reproduced on the current tree")
+	return 0
 }
